@@ -1207,3 +1207,28 @@ def cv3(m, run, which=('pure', 'file')):
             except Unsupported as ex:
                 raise AnalysisError('%s: interpreter met an unsupported construct: %s' % (key, ex))
             run.ob('CV3.file-variant-on-monomial-cells', key, why is None, doc if why is None else 'expected: %s; %s' % (doc, why), 'geomdl/compatibility.py:%d in %s' % (fi.node.lineno, fi.key))
+
+
+def pp2(m, run):
+    """PP2: CPGen.GridWeighted.grid interpreted on a non-square grid of monomial cells with one monomial weight per point: cell [i][j] of
+    the result is the point [i][j] multiplied by weight number j + i * (points per row), with that weight appended"""
+    fi = m.cls('CPGen', 'GridWeighted').getters.get('grid')
+    if fi is None:
+        raise AnalysisError('CPGen.GridWeighted.grid getter not found')
+    for rows, cols in ((3, 4), (4, 2)):
+        g = _mono_grid(rows, cols, 3)
+        ws = [Mono({('w', k): 1}) for k in range(rows * cols)]
+        # _size_u / _size_v are the numbers of divisions: one less than the numbers of points
+        self_ = Bag(('CPGen', 'GridWeighted'), _grid_points=g, _weights=list(ws), _size_u=rows - 1, _size_v=cols - 1, _cache={'gridptsw': []}, __len__=rows * cols)
+        want = [[[c.combine(ws[j + i * cols], 1) for c in g[i][j]] + [ws[j + i * cols]] for j in range(cols)] for i in range(rows)]
+        sk = SK(m, dict(STD_ABSTRACTED))
+        key = '%s :: %d x %d points' % (fi.key, rows, cols)
+        try:
+            out = sk.call(fi, [self_], {})
+            why = _same_cells(out, want)
+        except Violation as v:
+            why = '%s %s' % (v.msg, v.where())
+        except Unsupported as ex:
+            raise AnalysisError('%s: interpreter met an unsupported construct: %s' % (key, ex))
+        run.ob('PP2.per-point-weight-on-monomial-cells', key, why is None, 'every point is multiplied by its own weight' if why is None else
+               'point [i][j] must be multiplied by weight j + i * (points per row); %s' % why, 'geomdl/CPGen.py:%d in %s' % (fi.node.lineno, fi.key))
